@@ -6,6 +6,8 @@
 //	source: bytes (NewTransaction / NewBlockHeader) | lit (Decode, no Init) | json=<id|-> (json.Unmarshal
 //	        of the object's JSON with the `id` member absent / right / wrong / short) | jsonsz (plus a `size` member)
 //	steps:  init | copy | set=<fieldNumber>=<value> | addsig=<hex> | sign=<expected signature>=<chainID>=<seed>
+//	        values that decoding never produces: addsig=nil (a nil element), setsig=<index>=nil|-|<hex> (an element
+//	        replaced by nil / empty / bytes; no-op beyond the end), set=<bytes field>=nil (a nil byte string)
 //
 // and print, after the source and after every step, <cached ID>/<Size()>/<hash of Encode()>; the Lean
 // model (Model/CodecLife.lean, Driver/CodecLife.lean) prints the same. Model-free oracle = the clause
@@ -25,6 +27,7 @@ import (
 	"strings"
 
 	"github.com/LiskHQ/lisk-engine/pkg/blockchain"
+	"github.com/LiskHQ/lisk-engine/pkg/codec"
 
 	"verifharness/corr"
 )
@@ -153,8 +156,23 @@ func genLifeCases(rng *rand.Rand, tier string) []corr.Case {
 					w = append(w, fmt.Sprintf("set=%d=%s", 1+rng.Intn(2), corr.Hex(genString(rng))))
 				case 7:
 					w = append(w, fmt.Sprintf("set=%d=%s", 5+rng.Intn(2), corr.Hex(genBytes(rng))))
-				default:
+				case 8:
 					w = append(w, "addsig="+corr.Hex(rbytes(rng, 64)))
+				default:
+					// nil where a decoded value has empty bytes: elements of the signatures array (the unset slot of an
+					// optional key) and the bytes fields, next to / between real entries
+					switch rng.Intn(6) {
+					case 0:
+						w = append(w, "addsig=nil", "addsig="+corr.Hex(rbytes(rng, 64)))
+					case 1:
+						w = append(w, "addsig=-")
+					case 2:
+						w = append(w, "addsig="+corr.Hex(rbytes(rng, 64)), "addsig=nil")
+					case 3:
+						w = append(w, fmt.Sprintf("set=%d=nil", 5+rng.Intn(2)))
+					default:
+						w = append(w, fmt.Sprintf("setsig=%d=%s", rng.Intn(3), []string{"nil", "nil", "-", corr.Hex(rbytes(rng, 64))}[rng.Intn(4)]))
+					}
 				}
 			}
 			if rng.Intn(5) > 0 {
@@ -181,6 +199,11 @@ func genLifeCases(rng *rand.Rand, tier string) []corr.Case {
 				case 4:
 					f := []int{6, 7, 8, 9, 13}[rng.Intn(5)]
 					h.b[f] = rbytes(rng, 32)
+					if rng.Intn(4) == 0 {
+						h.b[f] = nil // a nil byte string: encodes as the empty one
+						w = append(w, fmt.Sprintf("set=%d=nil", f))
+						break
+					}
 					w = append(w, fmt.Sprintf("set=%d=%s", f, corr.Hex(h.b[f])))
 				case 5:
 					h.flag = !h.flag
@@ -254,6 +277,29 @@ func (o *lifeObj) encode() []byte {
 		return o.tx.Encode()
 	}
 	return o.hdr.Encode()
+}
+
+// nilEmpty: the object encodes exactly like its twin with empty entries in place of nil ones and decodes to the
+// same number of array elements (nilempty.go).
+func (o *lifeObj) nilEmpty() (sig, detail string) {
+	if o.tx != nil {
+		t := o.tx
+		tw := &blockchain.Transaction{Module: t.Module, Command: t.Command, Nonce: t.Nonce, Fee: t.Fee,
+			SenderPublicKey: append([]byte{}, t.SenderPublicKey...), Params: append([]byte{}, t.Params...)}
+		if t.Signatures != nil {
+			tw.Signatures = []codec.Hex{}
+		}
+		for _, sg := range t.Signatures {
+			tw.Signatures = append(tw.Signatures, append([]byte{}, sg...))
+		}
+		return nilEmptyObject("blockchain.Transaction", t, tw)
+	}
+	cp := *o.hdr
+	if cp.AggregateCommit != nil {
+		ac := *cp.AggregateCommit
+		cp.AggregateCommit = &ac
+	}
+	return nilEmptyObject("blockchain.BlockHeader", o.hdr, &cp)
 }
 
 func (o *lifeObj) show() string {
@@ -442,6 +488,12 @@ func runLife(i int, op string, w []string) (res string, fails []corr.Fail, handl
 		return "bad-op", fails, true
 	}
 	out := []string{"ok", o.show()}
+	checkNil := func(after string) {
+		if sig, d := o.nilEmpty(); sig != "" {
+			fail(sig, "after %s: %s", after, d)
+		}
+	}
+	checkNil("the source")
 	var orig *blockchain.Transaction
 	var origEnc []byte
 	for _, st := range w[4:] {
@@ -473,9 +525,9 @@ func runLife(i int, op string, w []string) (res string, fails []corr.Fail, handl
 			case "4":
 				o.tx.Fee, _ = strconv.ParseUint(p[2], 10, 64)
 			case "5":
-				o.tx.SenderPublicKey = corr.UnHex(p[2])
+				o.tx.SenderPublicKey = unhexNil(p[2])
 			case "6":
-				o.tx.Params = corr.UnHex(p[2])
+				o.tx.Params = unhexNil(p[2])
 			default:
 				return "bad-op", fails, true
 			}
@@ -493,22 +545,28 @@ func runLife(i int, op string, w []string) (res string, fails []corr.Fail, handl
 			case "11":
 				o.hdr.MaxHeightGenerated = uint32(u)
 			case "6":
-				o.hdr.TransactionRoot = corr.UnHex(p[2])
+				o.hdr.TransactionRoot = unhexNil(p[2])
 			case "7":
-				o.hdr.AssetRoot = corr.UnHex(p[2])
+				o.hdr.AssetRoot = unhexNil(p[2])
 			case "8":
-				o.hdr.EventRoot = corr.UnHex(p[2])
+				o.hdr.EventRoot = unhexNil(p[2])
 			case "9":
-				o.hdr.StateRoot = corr.UnHex(p[2])
+				o.hdr.StateRoot = unhexNil(p[2])
 			case "13":
-				o.hdr.ValidatorsHash = corr.UnHex(p[2])
+				o.hdr.ValidatorsHash = unhexNil(p[2])
 			case "12":
 				o.hdr.ImpliesMaxPrevotes = p[2] == "1"
 			default:
 				return "bad-op", fails, true
 			}
 		case p[0] == "addsig" && len(p) == 2 && isTx:
-			o.tx.Signatures = append(o.tx.Signatures, corr.UnHex(p[1]))
+			o.tx.Signatures = append(o.tx.Signatures, unhexNil(p[1]))
+		case p[0] == "setsig" && len(p) == 3 && isTx:
+			if k, err := strconv.Atoi(p[1]); err != nil {
+				return "bad-op", fails, true
+			} else if k < len(o.tx.Signatures) {
+				o.tx.Signatures[k] = unhexNil(p[2])
+			}
 		case p[0] == "sign" && len(p) == 4 && !isTx:
 			o.hdr.Sign(corr.UnHex(p[2]), ed25519.NewKeyFromSeed(corr.UnHex(p[3])))
 			if !bytes.Equal(o.hdr.Signature, corr.UnHex(p[1])) {
@@ -519,11 +577,20 @@ func runLife(i int, op string, w []string) (res string, fails []corr.Fail, handl
 			return "bad-op", fails, true
 		}
 		out = append(out, o.show())
+		checkNil(st)
 	}
 	if orig != nil && !bytes.Equal(orig.Encode(), origEnc) {
 		fail("c08-copy-aliases-original", "the original re-encodes to %x after the copy was changed, before %x", orig.Encode(), origEnc)
 	}
 	return strings.Join(out, " "), fails, true
+}
+
+// unhexNil: "nil" is the nil byte string, "-" the empty non-nil one.
+func unhexNil(s string) []byte {
+	if s == "nil" {
+		return nil
+	}
+	return corr.UnHex(s)
 }
 
 func idOf(tx *blockchain.Transaction) []byte {
